@@ -11,7 +11,7 @@ from mc import driver as D
 
 PROP = 'C08'
 RULE = ('explicit-state exploration of the real Executor: ALL sequences of d operations (d=3 quick, 4 thorough) over the '
-        'operation alphabet (get_cell in numeric / letters+row-text / title-by-name / title-by-index / title-with-numbers spellings, the same Cell '
+        'operation alphabet (get_cell in numeric / letters+row-text / lower-case letters / title-by-name / title-by-index / title-with-numbers spellings, the same Cell '
         'object reused, get_cells of pairs, get_sheet by index and by title, four set_cells, a second Executor over the same class overriding and querying in between); oracle: a fresh executor with '
         'the same overrides; invariants: override map = model, sheet sizes = used range extended by overrides, grid = '
         'last_row x last_column entries each equal to the single-cell query.  non-trivial = history with at least two '
@@ -56,6 +56,8 @@ def mk(addr, how):
         return D.Cell(TIDX[t], c, str(r))
     if how == 'name_num':
         return D.Cell(t, cn(c) - 1, r - 1)
+    if how == 'a1_lower':
+        return D.Cell(t, c.lower(), str(r))      # column letters are not case-sensitive
     raise ValueError(how)
 
 
@@ -71,6 +73,7 @@ def _ops():
     ops += [('get_cell', 'C1', 'num'), ('get_cell', 'TB1', 'idx_letters'), ('get_cell', 'H9', 'name_num'),
             ('get_cell', 'F1', 'a1'), ('get_cell', 'AB2', 'a1'), ('get_cell', 'AB2', 'idx_letters'),
             ('get_cell', 'TB1', 'name_num'), ('get_cell', 'C1', 'name_num'), ('get_cell', 'NB1', 'name_num')]
+    ops += [('get_cell', 'C1', 'a1_lower'), ('get_cell', 'AB2', 'a1_lower')]
     ops += [('get_cell_reused', 'C1', 'a1'), ('get_cell_reused', 'TB1', 'a1')]
     ops += [('get_cells', ['C1', 'A1'], 'num'), ('get_cells', ['A1', 'C1'], 'a1'), ('get_cells', ['TB1', 'F1'], 'a1'),
             ('get_cells_same', ['C1'], 'a1')]
@@ -79,7 +82,7 @@ def _ops():
     ops += [('set_cells', [('A1', 5)]), ('set_cells', [(('S', 'J', 12), 1)]), ('set_cells', [('EA1', 2), ('A2', 4)]),
             ('set_cells', [('A1', 6), ('AB2', 0)]),
             # exactly one row below / one column right of the used range (J12 above lies several rows beyond it)
-            ('set_cells', [(('S', 'B', 5), 3)]), ('set_cells', [(('T 2', 'C', 1), 4)])]
+            ('set_cells', [(('S', 'B', 5), 3)]), ('set_cells', [(('T 2', 'C', 1), 4)]), ('set_cells', [('A2', 8)], 'a1_lower')]
     return ops
 
 
@@ -182,7 +185,15 @@ def replay(history, stats):
             if got != exp:
                 return ('other_executor_value', step, {'cell': q, 'expected': exp, 'got': got})
         elif kind == 'set_cells':
-            ex.set_cells([D.Cell(*[(TIDX[a[0]], cn(a[1]) - 1, a[2] - 1) for a in [addr_of(x)]][0], value=v) for x, v in op[1]])
+            if len(op) > 2:
+                batch = []
+                for x, v in op[1]:
+                    cell = mk(addr_of(x), op[2])
+                    cell.value = v
+                    batch.append(cell)
+                ex.set_cells(batch)
+            else:
+                ex.set_cells([D.Cell(*[(TIDX[a[0]], cn(a[1]) - 1, a[2] - 1) for a in [addr_of(x)]][0], value=v) for x, v in op[1]])
             for x, v in op[1]:
                 model[addr_of(x)] = v
         elif kind in ('get_cell', 'get_cell_reused'):
